@@ -607,12 +607,85 @@ class Statics:
             self.ob(pid, q, "every-written-generation-gets-accumulated-patterns", found is not None and found[0] == want and len(cond) == 1,
                     f"in commit the pattern list of a new generation is set {'conditionally or elsewhere' if found is None else 'to ' + found[0]}; "
                     f"every written generation needs {want}", found[1] if found else None, kind="callsite")
+        # the traversal hands the same patterns and the same root down the recursion
+        q = "ascmhl.traverse.post_order_lexicographic"
+        fi = self.repo.funcs.get(q)
+        if fi is not None:
+            calls = [n for n in ast.walk(fi.node) if isinstance(n, ast.Call) and isinstance(n.func, ast.Name) and n.func.id == "post_order_lexicographic"]
+            ok = len(calls) >= 1 and all([ast.unparse(a) for a in c_.args][1:] == ["ignore_pathspec", "root"] and not c_.keywords for c_ in calls)
+            self.ob(pid, q, "recursion-keeps-patterns-and-root", ok,
+                    f"recursive calls pass {[[ast.unparse(a) for a in c_.args] for c_ in calls]}: sub-directories must be matched against the same patterns relative to the same root",
+                    calls[0].lineno if calls else None, kind="callsite")
+            self.obs[-1]["props"] = ["C12", "C13", "C07", "C02"]
         q = "ascmhl.history.MHLHistory.latest_ignore_patterns"
         fi = self.repo.funcs.get(q)
         if fi is not None:
             src = ast.unparse(fi.node)
             self.ob(pid, q, "latest = patterns of the last generation", "self.hash_lists[-1]" in src and "get_pattern_list()" in src,
                     "latest_ignore_patterns does not read the last generation's pattern list", kind="callsite")
+
+
+    # ---------------------------------------------------------------- C20 (main-thread obligations around the updater)
+    def c20(self):
+        pid = "C20"
+        q = "ascmhl.cli.update.Updater.__init__"
+        fi = self.repo.funcs.get(q)
+        if fi is None:
+            self.ob(pid, q, "exists", False, "Updater.__init__ not found", unknown=True, kind="thread")
+        else:
+            lines = {}
+            for n in ast.walk(fi.node):
+                if isinstance(n, ast.Assign) and ast.unparse(n.targets[0]) == "self.daemon":
+                    lines["daemon"] = (n.lineno, ast.unparse(n.value))
+                if isinstance(n, ast.Call) and ast.unparse(n.func) == "self.start":
+                    lines["start"] = n.lineno
+            ok = "daemon" in lines and lines["daemon"][1] == "True" and ("start" not in lines or lines["daemon"][0] < lines["start"])
+            self.ob(pid, q, "daemon-before-start", ok, f"the checker thread is not made a daemon before it is started: {lines}", kind="thread",
+                    assumed=["threading: a daemon thread never keeps the interpreter alive; exceptions of a thread's run() do not reach the main thread"])
+        for q in ("ascmhl.cli.update.Updater.run", "ascmhl.cli.update.Updater._get_latest_version"):
+            fi = self.repo.funcs.get(q)
+            if fi is None:
+                continue
+            writes = sorted({ast.unparse(n) for n in ast.walk(fi.node) if isinstance(n, ast.Attribute) and isinstance(n.ctx, ast.Store)})
+            prints = [ast.unparse(n.func) for n in ast.walk(fi.node) if isinstance(n, ast.Call) and ast.unparse(n.func) in ("print", "click.echo", "click.secho", "logger.info", "logger.error", "sys.stdout.write", "sys.exit", "os._exit")]
+            self.ob(pid, q, "thread-frame", set(writes) <= {"self.latest_version", "self.finished"} and not prints,
+                    f"the checker thread writes {writes} / calls {prints}: its frame is {{latest_version, finished}} and it prints nothing", kind="thread")
+        for mod in ("ascmhl.cli.ascmhl", "ascmhl.cli.ascmhl_debug"):
+            q = f"{mod}.update"
+            fi = self.repo.funcs.get(q)
+            if fi is None:
+                self.ob(pid, q, "exists", False, "result callback not found", unknown=True, kind="thread")
+                continue
+            joins = [n for n in ast.walk(fi.node) if isinstance(n, ast.Call) and isinstance(n.func, ast.Attribute) and n.func.attr == "join"]
+            okj = False
+            why = f"{len(joins)} join call(s)"
+            if len(joins) == 1:
+                kw = {k.arg: k.value for k in joins[0].keywords}
+                tv = kw.get("timeout", joins[0].args[0] if joins[0].args else None)
+                if isinstance(tv, ast.Constant) and isinstance(tv.value, (int, float)) and 0 <= tv.value <= 1:
+                    okj = True
+                else:
+                    why = f"join timeout is {ast.unparse(tv) if tv is not None else None}: it must be a literal of at most 1 second"
+            self.ob(pid, q, "join-with-literal-timeout<=1s", okj, why, joins[0].lineno if joins else None, kind="thread",
+                    assumed=["threading: join(timeout=t) returns within about t seconds"])
+            bad = [type(n).__name__ for n in ast.walk(fi.node) if isinstance(n, (ast.Raise,)) or (isinstance(n, ast.Return) and n.value is not None)]
+            exits = [ast.unparse(n.func) for n in ast.walk(fi.node) if isinstance(n, ast.Call) and ast.unparse(n.func) in ("sys.exit", "exit", "os._exit", "quit")]
+            self.ob(pid, q, "callback-returns-none-and-does-not-exit", not bad and not exits, f"callback contains {bad + exits}", kind="thread",
+                    assumed=["click: the group's result callback runs only after a command returned normally; otherwise the process exits with the command's code"])
+            echos = [n for n in ast.walk(fi.node) if isinstance(n, ast.Call) and ast.unparse(n.func) in ("click.secho", "click.echo", "print")]
+            guarded = all(any(isinstance(p_, ast.If) and "needs_update" in ast.unparse(p_.test) and any(e is x for x in ast.walk(p_)) for p_ in ast.walk(fi.node)) for e in echos)
+            self.ob(pid, q, "at-most-one-notice-only-if-needs_update", len(echos) <= 1 and guarded, f"{len(echos)} print call(s), guarded by needs_update: {guarded}", kind="thread")
+            # module level: the updater is created once, nothing else wraps the commands
+            mi = self.repo.modules.get(mod)
+            cbs = [n for n in mi.tree.body if isinstance(n, ast.FunctionDef) and any("result_callback" in d for d in [ast.unparse(x) for x in n.decorator_list])]
+            self.ob(pid, q, "single-result-callback", len(cbs) == 1, f"{len(cbs)} result callbacks in {mod}", kind="thread")
+        q = "ascmhl.cli.update.Updater._get_latest_version"
+        fi = self.repo.funcs.get(q)
+        if fi is not None:
+            tries = [n for n in ast.walk(fi.node) if isinstance(n, ast.Try)]
+            gets = [n for n in ast.walk(fi.node) if isinstance(n, ast.Call) and ast.unparse(n.func).startswith("requests.")]
+            inside = all(any(g is x for t_ in tries for b_ in t_.body for x in ast.walk(b_)) for g in gets)
+            self.ob(pid, q, "network-calls-inside-thread-try", bool(gets) and inside, "a requests call outside the try block of the checker thread", kind="thread")
 
 
 def run(pid, tier, repo_root=None):
@@ -626,6 +699,10 @@ def run(pid, tier, repo_root=None):
     elif pid == "C15":
         s.c15()
     elif pid == "C12":
+        s.c12()
+    elif pid == "C20":
+        s.c20()
+    elif pid in ("C13", "C07", "C02"):
         s.c12()
     elif pid in ("C06", "C08", "C03"):
         s.c05()
